@@ -85,17 +85,13 @@ theorem runSteps_decAEAD (a : AEAD) (nonce tag : Bytes) :
 theorem encryptAEAD_eq (a : AEAD) (pt nonce ad : Bytes) :
     encryptAEAD a pt nonce ad =
       if nonce.length ≠ a.nonceSize then .err eInvalidNonce
-      else match a.doSeal nonce pt ad with
-        | .ok out =>
+      else (a.doSeal nonce pt ad).bind fun out =>
           if out.length < a.overhead then .panic "slice bounds out of range"
-          else .ok (out.take (out.length - a.overhead), out.drop (out.length - a.overhead))
-        | .err e => .err e
-        | .panic w => .panic w := by
+          else .ok (out.take (out.length - a.overhead), out.drop (out.length - a.overhead)) := by
   unfold encryptAEAD
   simp only [runSteps_encAEAD]
   by_cases h : nonce.length = a.nonceSize
   · simp only [h, ne_eq, not_true_eq_false, if_false]
-    cases a.doSeal nonce pt ad <;> rfl
   · simp only [h, ne_eq, not_false_eq_true, if_true]
 
 /-- Guard normal form of `decryptSymmetricAEAD`. -/
